@@ -5,6 +5,7 @@ import SasLexer.Spec.C07
 import SasLexer.Spec.C08
 import SasLexer.Spec.C10
 import SasLexer.Spec.C11
+import SasLexer.Spec.Pairs
 open SasLexer
 
 def srcOfHexLine (line : String) : Option (List Char) := charsOfHex line.trimAscii.toString
@@ -30,8 +31,33 @@ def verdict1 (prop : String) (s : List Char) (d : Dump) : Option Spec.Verdict :=
   | "C11" => some (Spec.C11 s d)
   | _ => none
 
+def fmtVerdict (v : Spec.Verdict) : String := if v.isEmpty then "ok" else "fail " ++ ",".intercalate v
+
 def checkLine (line : String) : String :=
   match line.splitOn "\t" with
+  | [prop, hex, d1, d2] =>
+    match charsOfHex hex, parseDump d1, parseDump d2 with
+    | some s, some a, some b =>
+      match prop with
+      | "C17" => fmtVerdict (Spec.C17 s a b)
+      | "C18" => fmtVerdict (Spec.C18 s a b)
+      | "C19" => fmtVerdict (Spec.C19 s a b)
+      | _ => "unknown-property"
+    | _, _, _ => "badinput"
+  | [prop, hex, hex2, d1, d2] =>
+    match charsOfHex hex, charsOfHex hex2, parseDump d1, parseDump d2 with
+    | some s, some s2, some a, some b =>
+      match prop with
+      | "C16" => fmtVerdict (Spec.C16 s s2 a b)
+      | _ => "unknown-property"
+    | _, _, _, _ => "badinput"
+  | [prop, hexA, hexB, dA, dB, dAB] =>
+    match charsOfHex hexA, charsOfHex hexB, parseDump dA, parseDump dB, parseDump dAB with
+    | some a, some b, some x, some y, some z =>
+      match prop with
+      | "C15" => if Spec.closedPrefix a x && b.head? != some BOM && y.outcome == .ok then fmtVerdict (Spec.C15 a b x y z) else "n/a"
+      | _ => "unknown-property"
+    | _, _, _, _, _ => "badinput"
   | [prop, hex, dump] =>
     match charsOfHex hex, parseDump dump with
     | some s, some d =>
